@@ -73,6 +73,21 @@ Theorem C16_finish_on_known_changes_nothing : forall (s : store V) n v b now e, 
   (forall now_ns, In (n, ver e) (requests (snapshot s' now_ns))).
 Proof. exact (@finish_known_changes_nothing V). Qed.
 
+(* ---- a watcher / Updater registered THROUGH THE LOOKUP (the name was not known when NewUpdater was called) is
+   woken like any other: after the locked part of the flight - which installs the answer, or keeps the entry
+   another caller's lookup installed meanwhile - and the registration, the next poll that installs a version of
+   the name fills the new watcher's slot, and the store serves that version (so Updater.Get rebuilds from it,
+   by C15_get_newest).  For EVERY store state satisfying the invariant: declared or not, looked up earlier or
+   by this very registration, alone or overtaken. *)
+Theorem C16_watcher_after_lookup_is_woken : forall (s : store V) n v0 b0 now v b, Inv s ->
+  let s1 := fst (lookup_finish s n v0 b0 now) in
+  let s2 := fst (add_watcher s1 n) in
+  let w := snd (add_watcher s1 n) in
+  let s3 := fst (apply_updates s2 [(n, Install v b)]) in
+  w = length (ws s) /\ nth_error (ws s2) w = Some (W n false) /\
+  nth_error (ws s3) w = Some (W n true) /\ exists t d, entry s3 n = Some (CE v b t d).
+Proof. exact (@watcher_after_lookup_is_woken V). Qed.
+
 (* ---- single flight: in the service's request log for the name a request starts only after the
    previous one ended, and none is left open when everybody has returned *)
 Theorem C16_single_flight : forall (nm : name) callers scr wn (st : store V) fuel s',
@@ -204,6 +219,7 @@ Print Assumptions C16_finish_on_known_changes_nothing.
 Print Assumptions C16_flight_installs_answer.
 Print Assumptions C16_flight_on_known_keeps.
 Print Assumptions C16_flight_only_while_unknown.
+Print Assumptions C16_watcher_after_lookup_is_woken.
 Print Assumptions C16_single_flight.
 Print Assumptions C16_all_joined_get_handle.
 Print Assumptions C16_known_no_request.
